@@ -21,8 +21,12 @@ Variable dict : list byte.
 (* the goal: the frame specification applied to what was consumed so far, followed by g *)
 Definition SpecGoal (p g : list byte) (res : list byte * list byte) : Prop :=
   frame_decode bdec skip dict (p ++ g) = Some res.
+(* [E] describes exactly what the specification still has to see after the consumed bytes [p] *)
 Definition Kc (p : list byte) (E : list byte -> list byte * list byte -> Prop) : Prop :=
-  forall g res, E g res -> SpecGoal p g res.
+  (forall g res, E g res -> SpecGoal p g res) /\ (forall g res, SpecGoal p g res -> E g res).
+(* no continuation of [p ++ rem] is a valid frame (all checksums verified) *)
+Definition Bad (p rem : list byte) : Prop :=
+  skip = false -> forall R res, ~ SpecGoal p (rem ++ R) res.
 Definition Done (p O : list byte) : Prop := forall g, SpecGoal p g (O, g).
 (* the end of a frame: an LZ4 frame accepted by the specification, or a skippable frame *)
 Definition Fin (p O : list byte) : Prop :=
@@ -103,18 +107,18 @@ Inductive CInv (p O : list byte) (s : dstate) : Prop :=
    ([pn] : consumed so far, including what its caller consumed for it) *)
 Definition after (pn O : list byte) (l : lst) (r : lst * outcome) : Prop :=
   match snd r with
-  | Ret _ => True
+  | Ret v => v < 0 -> Bad pn (l_src l)
   | Continue => exists y, l_src (fst r) = l_src l /\ l_out (fst r) = l_out l ++ y /\ CInv pn (O ++ y) (l_s (fst r))
-  | Stop h => exists y, l_src (fst r) = l_src l /\ l_out (fst r) = l_out l ++ y /\
+  | Stop h => 0 <= h /\ exists y, l_src (fst r) = l_src l /\ l_out (fst r) = l_out l ++ y /\
                         if h =? 0 then Fin pn (O ++ y) else CInv pn (O ++ y) (l_s (fst r))
   end.
 (* ... and a whole stage, which consumes a prefix x of the input it was offered *)
 Definition stepr (p O : list byte) (l : lst) (r : lst * outcome) : Prop :=
   match snd r with
-  | Ret _ => True
+  | Ret v => v < 0 -> Bad p (l_src l)
   | Continue => exists x y, l_src l = x ++ l_src (fst r) /\ l_out (fst r) = l_out l ++ y /\ bytes_ok x = true /\
                             CInv (p ++ x) (O ++ y) (l_s (fst r))
-  | Stop h => exists x y, l_src l = x ++ l_src (fst r) /\ l_out (fst r) = l_out l ++ y /\ bytes_ok x = true /\
+  | Stop h => 0 <= h /\ exists x y, l_src l = x ++ l_src (fst r) /\ l_out (fst r) = l_out l ++ y /\ bytes_ok x = true /\
                           if h =? 0 then Fin (p ++ x) (O ++ y) else CInv (p ++ x) (O ++ y) (l_s (fst r))
   end.
 
@@ -124,9 +128,11 @@ Lemma after_stepr p O l l' n r :
   after (p ++ ztake n (l_src l)) O l' r -> stepr p O l r.
 Proof.
   intros Hn Hb Hs Ho. unfold after, stepr. destruct (bytes_ok_split n _ Hb) as [Hb1 _].
-  destruct (snd r); auto.
+  destruct (snd r).
+  3:{ intros A Hv Hsk R res G. apply (A Hv Hsk R res). unfold SpecGoal in *. rewrite Hs.
+      rewrite <- app_assoc, (app_assoc (ztake n (l_src l))), ztake_zdrop_app. exact G. }
   - intros (y & A & B & C). exists (ztake n (l_src l)), y. rewrite A, B, Hs, Ho. rewrite ztake_zdrop_app. auto.
-  - intros (y & A & B & C). exists (ztake n (l_src l)), y. rewrite A, B, Hs, Ho. rewrite ztake_zdrop_app. auto.
+  - intros (Hh & y & A & B & C). split; [exact Hh|]. exists (ztake n (l_src l)), y. rewrite A, B, Hs, Ho. rewrite ztake_zdrop_app. auto.
 Qed.
 
 (* the same when the stage first replaced the state (fall-through into a store stage) *)
@@ -134,8 +140,80 @@ Lemma stepr_with_s p O l s r : stepr p O (with_s l s) r -> stepr p O l r.
 Proof. exact (fun H => H). Qed.
 
 Lemma Kc_shift p x (E E' : list byte -> list byte * list byte -> Prop) :
-  Kc p E -> (forall g res, E' g res -> E (x ++ g) res) -> Kc (p ++ x) E'.
-Proof. intros K H g res He. unfold SpecGoal. rewrite <- app_assoc. apply K. apply H. exact He. Qed.
+  Kc p E -> (forall g res, E' g res <-> E (x ++ g) res) -> Kc (p ++ x) E'.
+Proof.
+  intros [K1 K2] H. split; intros g res He.
+  - unfold SpecGoal. rewrite <- app_assoc. apply K1. apply H. exact He.
+  - apply H. apply K2. unfold SpecGoal in *. rewrite <- app_assoc in He. exact He.
+Qed.
+Lemma Kc_weaken p (E E' : list byte -> list byte * list byte -> Prop) :
+  Kc p E -> (forall g res, E' g res <-> E g res) -> Kc p E'.
+Proof. intros [K1 K2] H. split; intros g res e; [apply K1, H, e|apply H, K2, e]. Qed.
+(* an error is justified: the specification rejects every continuation *)
+Lemma Kc_bad p (E : list byte -> list byte * list byte -> Prop) rem :
+  Kc p E -> (skip = false -> forall R res, ~ E (rem ++ R) res) -> Bad p rem.
+Proof. intros [_ K2] H Hsk R res G. exact (H Hsk R res (K2 _ _ G)). Qed.
+
+(* ---- the specification's block loop, inverted ---- *)
+Lemma take_full (a g x r : list byte) n : zlen a = Z.of_nat n -> take n (a ++ g) = Some (x, r) -> x = a /\ r = g.
+Proof.
+  intros H T. replace n with (length a) in T by (unfold zlen in H; lia). rewrite take_app in T.
+  inversion T; auto.
+Qed.
+Lemma take_app_inv : forall (a g : list byte) k b r,
+  take (length a + k) (a ++ g) = Some (b, r) -> exists b', b = a ++ b' /\ take k g = Some (b', r).
+Proof.
+  induction a as [|x a IH]; intros g k b r H; [exists b; auto|].
+  simpl in H. destruct (take (length a + k) (a ++ g)) as [[b0 r0]|] eqn:E; [|discriminate].
+  inversion H; subst. destruct (IH _ _ _ _ E) as (b' & -> & T). exists b'. auto.
+Qed.
+
+Lemma L_inv d maxb acc bs szb r res :
+  take 4 bs = Some (szb, r) -> E_header bdec skip d maxb dict acc bs res ->
+  (le_val szb = 0 /\ E_suffix skip d acc r res) \/
+  (le_val szb <> 0 /\ le_val szb mod 2147483648 <= maxb /\
+   exists data r1 c, take (Z.to_nat (le_val szb mod 2147483648)) r = Some (data, r1) /\
+                     (if 2147483648 <=? le_val szb then Some data else bdec (spec_hist d dict acc) data) = Some c /\
+                     E_bcrc bdec skip d maxb dict acc data c r1 res).
+Proof.
+  intros T (F & HF). destruct F as [|F]; [discriminate HF|]. cbn [blocks] in HF. rewrite T in HF.
+  destruct (le_val szb =? 0) eqn:W.
+  - left. split; [apply Z.eqb_eq; exact W|]. unfold E_suffix, fin_ok.
+    assert (G : forall rest, match f_csize d with
+                             | Some n => if (n =? 0) || (n =? Z.of_nat (length acc)) then Some (acc, rest) else None
+                             | None => Some (acc, rest) end = Some res ->
+                match f_csize d with Some n => (n =? 0) || (n =? Z.of_nat (length acc)) = true | None => True end /\ res = (acc, rest)).
+    { intros rest H. destruct (f_csize d) as [n|].
+      - destruct ((n =? 0) || (n =? Z.of_nat (length acc))); [|discriminate H]. inversion H; auto.
+      - inversion H; auto. }
+    destruct (f_ccrc d).
+    + destruct (take 4 r) as [[cb r1]|]; [|discriminate HF].
+      destruct (skip || (le_val cb =? xxh32 0 acc)) eqn:C; [|discriminate HF].
+      exists cb, r1. split; [reflexivity|]. split; [exact C|]. apply G. exact HF.
+    + apply G. exact HF.
+  - right. split; [apply Z.eqb_neq; exact W|].
+    destruct (maxb <? le_val szb mod 2147483648) eqn:EM; [discriminate HF|]. split; [apply Z.ltb_ge; exact EM|].
+    destruct (take (Z.to_nat (le_val szb mod 2147483648)) r) as [[data r1]|]; [|discriminate HF].
+    exists data, r1.
+    assert (G : forall rest,
+       (let hist := if f_indep d then dict else lastn 65536 (dict ++ acc) in
+        let content := if 2147483648 <=? le_val szb then Some data else bdec hist data in
+        match content with
+        | Some c => if maxb <? Z.of_nat (length c) then None else blocks bdec skip F d maxb dict (acc ++ c) rest
+        | None => None end) = Some res ->
+       exists c, (if 2147483648 <=? le_val szb then Some data else bdec (spec_hist d dict acc) data) = Some c /\
+                 E_after bdec skip d maxb dict acc c rest res).
+    { intros rest H. cbv zeta in H. fold (spec_hist d dict acc) in H.
+      destruct (if 2147483648 <=? le_val szb then Some data else bdec (spec_hist d dict acc) data) as [c|]; [|discriminate H].
+      destruct (maxb <? Z.of_nat (length c)) eqn:EL; [discriminate H|]. apply Z.ltb_ge in EL.
+      exists c. split; [reflexivity|]. split; [exact EL|]. exists F. exact H. }
+    unfold E_bcrc. destruct (f_bcrc d).
+    + destruct (take 4 r1) as [[cb r2]|]; [|discriminate HF].
+      destruct (skip || (le_val cb =? xxh32 0 data)) eqn:C; [|discriminate HF].
+      destruct (G r2 HF) as (c & C1 & C2). exists c. split; [reflexivity|]. split; [exact C1|].
+      exists cb, r2. auto.
+    + destruct (G r1 HF) as (c & C1 & C2). exists c. auto.
+Qed.
 
 Ltac binv_same B := (eapply binv_eq; [| | | | | |exact B]; reflexivity).
 
@@ -158,9 +236,13 @@ Proof.
   destruct (le_val sel =? 0) eqn:E0.
   { apply Z.eqb_eq in E0. ss. exists []. rewrite !app_nil_r. repeat split; auto.
     eapply C_x with (d := d) (maxb := maxb); [reflexivity|binv_same Bk|].
-    intros g res E. apply HK. eapply L_end; eauto. }
+    eapply Kc_weaken; [exact HK|]. intros g res. cbv beta. split; intro E.
+    - eapply L_end; eauto.
+    - destruct (L_inv _ _ _ _ _ _ _ (T g) E) as [[_ X]|[X _]]; [exact X|contradiction]. }
   apply Z.eqb_neq in E0. rewrite B2, TB2.
-  destruct (maxb <? le_val sel mod 2147483648) eqn:EM; [ss; exact I|].
+  destruct (maxb <? le_val sel mod 2147483648) eqn:EM.
+  { cbn [fst snd]. intros _. apply (Kc_bad _ _ _ HK). intros _ R res E. cbv beta in E. apply Z.ltb_lt in EM.
+    destruct (L_inv _ _ _ _ _ _ _ (T _) E) as [[X _]|(_ & X & _)]; [contradiction|lia]. }
   apply Z.ltb_ge in EM.
   assert (Hn0 : 0 <= le_val sel mod 2147483648) by (apply Z.mod_pos_bound; lia).
   unfold FD_BLOCKUNCOMPRESSED_FLAG. rewrite TB1. rewrite negb_involutive.
@@ -178,8 +260,11 @@ Proof.
       - unfold binv. rewrite G1, G2, G3, G4, G5, G6. repeat split; auto.
       - lia.
       - rewrite G8, zlen_nil. lia.
-      - rewrite G8. intros g res (data & r1 & T1 & E). apply HK.
-        eapply (L_block bdec skip d maxb dict O (sel ++ g) sel g res true data r1 data); eauto. }
+      - rewrite G8. eapply Kc_weaken; [exact HK|]. intros g res. cbv beta. split.
+        + intros (data & r1 & T1 & E).
+          eapply (L_block bdec skip d maxb dict O (sel ++ g) sel g res true data r1 data); eauto.
+        + intro E. destruct (L_inv _ _ _ _ _ _ _ (T g) E) as [[X _]|(_ & _ & data & r1 & c & T1 & C & E1)]; [contradiction|].
+          rewrite ER in C. inversion C; subst c. exists data, r1. split; [exact T1|exact E1]. }
     exists []. rewrite !app_nil_r.
     destruct (negb (f_bcrc d)) eqn:EB; ss; (split; [reflexivity|]; split; [reflexivity|]); apply G; ss; auto.
     intros C. rewrite C in EB. discriminate EB.
@@ -189,12 +274,16 @@ Proof.
     rewrite Hcrc.
     assert (G : CInv pn O (set_stage (set_tmpInTarget (l_s l) (n + crc4 (f_bcrc d))) GetCBlock)).
     { eapply C_g with (d := d) (maxb := maxb) (n := n); [reflexivity|binv_same Bk|reflexivity|lia|].
-      intros g res (data & r1 & c & T1 & C & E). apply HK.
-        eapply (L_block bdec skip d maxb dict O (sel ++ g) sel g res false data r1 c); eauto. }
-    destruct ((l_cap l =? 0) || (zlen (l_src l) =? 0)); ss; exists []; rewrite !app_nil_r.
-    + replace (FD_BHSize + n + crc4 (f_bcrc d) =? 0) with false
-        by (symmetry; apply Z.eqb_neq; unfold crc4, FD_BHSize; destruct (f_bcrc d); lia). auto.
-    + auto.
+      eapply Kc_weaken; [exact HK|]. intros g res. cbv beta. split.
+      - intros (data & r1 & c & T1 & C & E).
+        eapply (L_block bdec skip d maxb dict O (sel ++ g) sel g res false data r1 c); eauto.
+      - intro E. destruct (L_inv _ _ _ _ _ _ _ (T g) E) as [[X _]|(_ & _ & data & r1 & c & T1 & C & E1)]; [contradiction|].
+        rewrite ER in C. exists data, r1, c. auto. }
+    assert (Hpos : 0 < FD_BHSize + n + crc4 (f_bcrc d)) by (unfold crc4, FD_BHSize; destruct (f_bcrc d); lia).
+    destruct ((l_cap l =? 0) || (zlen (l_src l) =? 0)); ss.
+    + split; [lia|]. exists []. rewrite !app_nil_r.
+      replace (FD_BHSize + n + crc4 (f_bcrc d) =? 0) with false by (symmetry; apply Z.eqb_neq; lia). auto.
+    + exists []. rewrite !app_nil_r. auto.
 Qed.
 
 Lemma stage_facts (buf : list byte) size piece n t :
@@ -207,11 +296,11 @@ Proof.
 Qed.
 
 Lemma stepr_stop_stage p O l l1 h x :
-  h <> 0 -> l_src l = x ++ l_src l1 -> l_out l1 = l_out l -> bytes_ok x = true -> CInv (p ++ x) O (l_s l1) ->
+  0 < h -> l_src l = x ++ l_src l1 -> l_out l1 = l_out l -> bytes_ok x = true -> CInv (p ++ x) O (l_s l1) ->
   stepr p O l (l1, Stop h).
 Proof.
-  intros Hh A B C D. unfold stepr. cbn [fst snd]. exists x, []. rewrite !app_nil_r.
-  replace (h =? 0) with false by (symmetry; apply Z.eqb_neq; exact Hh). auto.
+  intros Hh A B C D. unfold stepr. cbn [fst snd]. split; [lia|]. exists x, []. rewrite !app_nil_r.
+  replace (h =? 0) with false by (symmetry; apply Z.eqb_neq; lia). auto.
 Qed.
 
 (* ---- dstage_storeBlockHeader / dstage_getBlockHeader / dstage_init ---- *)
@@ -231,7 +320,7 @@ Proof.
   destruct (stage_facts _ _ piece n t Ht ltac:(lia) Hpl) as (W1 & W2 & W3). rewrite W1.
   assert (Hbtp : bytes_ok (t ++ piece) = true) by (rewrite bytes_ok_app, Hbt, Hbp; reflexivity).
   assert (HK' : Kc (p ++ piece) (fun g => E_header bdec skip d maxb dict O ((t ++ piece) ++ g))).
-  { eapply Kc_shift; [exact HK|]. intros g res E. cbv beta. rewrite app_assoc. exact E. }
+  { eapply Kc_shift; [exact HK|]. intros g res. cbv beta. rewrite <- app_assoc. tauto. }
   destruct (d_tmpInSize (l_s l) + n <? 4) eqn:E.
   - apply Z.ltb_lt in E. apply stepr_stop_stage with (x := piece);
       [lia | ss; unfold piece; rewrite ztake_zdrop_app; reflexivity | reflexivity | exact Hbp |].
@@ -258,15 +347,11 @@ Proof.
     destruct (bytes_ok_split 4 _ Hb) as [Hb1 _]. fold sel in Hb1.
     eapply (after_stepr p O l (adv l 4) 4); [lia|exact Hb|reflexivity|reflexivity|]. fold sel.
     apply (u_blockHeader d maxb); [exact B|exact Hb1|exact Hsel|].
-    eapply Kc_shift; [exact HK|]. auto.
+    eapply Kc_shift; [exact HK|]. intros g res. cbv beta. tauto.
   - apply Z.leb_gt in E.
     apply stepr_with_s with (s := set_stage (set_tmpInSize (l_s l) 0) StoreBlockHeader).
     apply (c_storeBlockHeader d maxb p O _ []); [reflexivity|binv_same B|reflexivity|reflexivity|ss; unfold FD_BHSize; lia|exact HK|exact Hb].
 Qed.
-
-Lemma Kc_weaken p (E E' : list byte -> list byte * list byte -> Prop) :
-  Kc p E -> (forall g res, E' g res -> E g res) -> Kc p E'.
-Proof. intros K H g res e. apply K, H, e. Qed.
 
 (* ---- dstage_copyDirect ---- *)
 Lemma take_app_more : forall (a g : list byte) k b r,
@@ -275,24 +360,34 @@ Proof. induction a as [|x a IH]; intros g k b r H; [exact H|]. simpl. rewrite (I
 
 Lemma EC_step d maxb acc0 data1 m piece k g res :
   zlen piece = k -> 0 <= k <= m ->
-  E_C d maxb acc0 (data1 ++ piece) (m - k) g res -> E_C d maxb acc0 data1 m (piece ++ g) res.
+  E_C d maxb acc0 (data1 ++ piece) (m - k) g res <-> E_C d maxb acc0 data1 m (piece ++ g) res.
 Proof.
-  intros Hp Hk (data2 & r1 & T & E). exists (piece ++ data2), r1. split.
-  - replace (Z.to_nat m) with (length piece + Z.to_nat (m - k))%nat by (unfold zlen in Hp; lia).
-    apply take_app_more. exact T.
-  - rewrite app_assoc. exact E.
+  intros Hp Hk.
+  assert (Hm : Z.to_nat m = (length piece + Z.to_nat (m - k))%nat) by (unfold zlen in Hp; lia).
+  split.
+  - intros (data2 & r1 & T & E). exists (piece ++ data2), r1. split.
+    + rewrite Hm. apply take_app_more. exact T.
+    + rewrite app_assoc. exact E.
+  - intros (data2 & r1 & T & E). rewrite Hm in T. destruct (take_app_inv _ _ _ _ _ T) as (b' & -> & T').
+    exists b', r1. split; [exact T'|]. rewrite <- app_assoc. exact E.
 Qed.
 Lemma EC_done_nocrc d maxb acc0 data1 g res :
   f_bcrc d = false -> zlen data1 <= maxb ->
-  E_header bdec skip d maxb dict (acc0 ++ data1) g res -> E_C d maxb acc0 data1 0 g res.
+  E_header bdec skip d maxb dict (acc0 ++ data1) g res <-> E_C d maxb acc0 data1 0 g res.
 Proof.
-  intros Hb Hl E. exists [], g. split; [reflexivity|]. rewrite app_nil_r. unfold E_bcrc. rewrite Hb. split; assumption.
+  intros Hb Hl. split.
+  - intro E. exists [], g. split; [reflexivity|]. rewrite app_nil_r. unfold E_bcrc. rewrite Hb. split; assumption.
+  - intros (data2 & r1 & T & E). change (Z.to_nat 0) with 0%nat in T. simpl in T. inversion T; subst.
+    rewrite app_nil_r in E. unfold E_bcrc in E. rewrite Hb in E. apply E.
 Qed.
 Lemma EC_done_crc d maxb acc0 data1 g res :
-  f_bcrc d = true -> E_B d maxb acc0 data1 [] g res -> E_C d maxb acc0 data1 0 g res.
+  f_bcrc d = true -> E_B d maxb acc0 data1 [] g res <-> E_C d maxb acc0 data1 0 g res.
 Proof.
-  intros Hb (cb & r2 & T & C & E). exists [], g. split; [reflexivity|]. rewrite app_nil_r. unfold E_bcrc. rewrite Hb.
-  exists cb, r2. auto.
+  intros Hb. split.
+  - intros (cb & r2 & T & C & E). exists [], g. split; [reflexivity|]. rewrite app_nil_r. unfold E_bcrc. rewrite Hb.
+    exists cb, r2. auto.
+  - intros (data2 & r1 & T & E). change (Z.to_nat 0) with 0%nat in T. simpl in T. inversion T; subst.
+    rewrite app_nil_r in E. unfold E_bcrc in E. rewrite Hb in E. exact E.
 Qed.
 
 Lemma c_copyDirect o d maxb p acc0 data1 l :
@@ -329,7 +424,7 @@ Proof.
     destruct (bytes_ok_split k _ Hb) as [Hbp _]. fold piece in Hbp.
     assert (Hsrc : l_src l = piece ++ l_src l2) by (rewrite S2; unfold piece; rewrite ztake_zdrop_app; reflexivity).
     assert (HKs : Kc (p ++ piece) (E_C d maxb acc0 (data1 ++ piece) (m - k))).
-    { eapply Kc_shift; [exact HK|]. intros g res E. eapply EC_step; eauto. }
+    { eapply Kc_shift; [exact HK|]. intros g res. apply EC_step; auto. }
     rewrite Tg, FB, F1. unfold stepr.
     destruct (k =? m) eqn:E.
     - apply Z.eqb_eq in E. replace (m - k) with 0 in HKs by lia.
@@ -338,16 +433,18 @@ Proof.
         eapply C_b with (d := d) (maxb := maxb) (acc0 := acc0) (data := data1 ++ piece) (t := []);
           [reflexivity | rewrite app_assoc; reflexivity | binv_same Bn | exact EB | rewrite zlen_app; lia | | reflexivity | reflexivity |].
         * intro K. ss. apply X2; auto.
-        * eapply Kc_weaken; [exact HKs|]. intros g res E2. apply EC_done_crc; auto.
+        * eapply Kc_weaken; [exact HKs|]. intros g res. apply EC_done_crc; auto.
       + exists piece, piece. ss. split; [exact Hsrc|]. split; [exact S3|]. split; [exact Hbp|].
         eapply C_h with (d := d) (maxb := maxb); [reflexivity | binv_same Bn |].
-        eapply Kc_weaken; [exact HKs|]. intros g res E2.
-        apply EC_done_nocrc; auto; [rewrite zlen_app; lia|]. rewrite app_assoc. exact E2.
+        eapply Kc_weaken; [exact HKs|]. intros g res. rewrite <- app_assoc.
+        apply EC_done_nocrc; auto. rewrite zlen_app; lia.
     - apply Z.eqb_neq in E. cbn [fst snd].
+      assert (Hpos : 0 < m - k + bcsize (set_tmpInTarget s1 (m - k)) + FD_BHSize).
+      { unfold bcsize, FD_BFSize, FD_BHSize. destruct (fi_bcFlag (d_fi (set_tmpInTarget s1 (m - k))) =? 0); lia. }
+      split; [ss; lia|].
       exists piece, piece. ss. split; [exact Hsrc|]. split; [exact S3|]. split; [exact Hbp|].
-      replace (m - k + bcsize (set_tmpInTarget s1 (m - k)) + FD_BHSize =? 0) with false.
-      2:{ symmetry. apply Z.eqb_neq. unfold bcsize, FD_BFSize, FD_BHSize.
-          destruct (fi_bcFlag (d_fi (set_tmpInTarget s1 (m - k))) =? 0); lia. }
+      replace (m - k + bcsize (set_tmpInTarget s1 (m - k)) + FD_BHSize =? 0) with false
+        by (symmetry; apply Z.eqb_neq; lia).
       eapply C_c with (d := d) (maxb := maxb) (acc0 := acc0) (data1 := data1 ++ piece);
         [ss; exact St | rewrite app_assoc; reflexivity | binv_same Bn | ss; lia | ss; rewrite zlen_app; lia | ss; exact X2 | ss; exact HKs]. }
   destruct (o_dstnull o) eqn:Hnull; cbv iota beta.
@@ -382,15 +479,21 @@ Proof.
   intros B Hd Hx Hcl Hbc HK. unfold do_blockChecksum_check, after.
   assert (Hrd : rd32 crc = le_val crc) by (rewrite rd32_le_val by exact Hbc; rewrite ztake4_self by exact Hcl; reflexivity).
   rewrite Hrd. assert (Bk := B). destruct B as (B1 & B2 & B3 & B4 & B5 & B6 & B7). rewrite B3.
-  destruct (negb skip && negb (le_val crc =? xxh32 0 (d_bxxh (l_s l)))) eqn:EC; cbn [fst snd]; [exact I|].
+  assert (Hc4 : zlen crc = Z.of_nat 4) by (rewrite Hcl; reflexivity).
+  destruct (negb skip && negb (le_val crc =? xxh32 0 (d_bxxh (l_s l)))) eqn:EC; cbn [fst snd].
+  { intros _. apply (Kc_bad _ _ _ HK). intros Hsk R res (cb & r2 & T & C & _).
+    destruct (take_full _ _ _ _ _ Hc4 T) as [-> _]. rewrite Hsk in *. cbn [negb andb orb] in *.
+    rewrite (Hx eq_refl) in EC. rewrite C in EC. discriminate EC. }
   exists []. ss. rewrite !app_nil_r. split; [reflexivity|]. split; [reflexivity|].
   eapply C_h with (d := d) (maxb := maxb); [reflexivity | binv_same Bk |].
-  eapply Kc_weaken; [exact HK|]. intros g res E. cbv beta. exists crc, g. split.
-  - replace 4%nat with (length crc) by (unfold zlen in Hcl; lia). apply take_app.
-  - split.
-    + destruct skip; [reflexivity|]. cbn [negb andb orb] in *. rewrite (Hx eq_refl) in EC.
-      apply negb_false_iff in EC. exact EC.
-    + split; [exact Hd|exact E].
+  eapply Kc_weaken; [exact HK|]. intros g res. cbv beta. split.
+  - intro E. exists crc, g. split.
+    + replace 4%nat with (length crc) by (unfold zlen in Hcl; lia). apply take_app.
+    + split.
+      * destruct skip; [reflexivity|]. cbn [negb andb orb] in *. rewrite (Hx eq_refl) in EC.
+        apply negb_false_iff in EC. exact EC.
+      * split; [exact Hd|exact E].
+  - intros (cb & r2 & T & C & E). destruct (take_full _ _ _ _ _ Hc4 T) as [_ ->]. apply E.
 Qed.
 
 Lemma c_getBlockChecksum d maxb p acc0 data t l :
@@ -410,7 +513,7 @@ Proof.
     destruct (bytes_ok_split 4 _ Hb) as [Hb1 _]. fold crc in Hb1.
     eapply (after_stepr p (acc0 ++ data) l (adv l 4) 4); [lia|exact Hb|reflexivity|reflexivity|]. fold crc.
     apply (u_bcc d maxb); [exact B|exact Hd|exact Hx|exact Hcl|exact Hb1|].
-    eapply Kc_shift; [exact HK|]. intros g res E. exact E.
+    eapply Kc_shift; [exact HK|]. intros g res. cbv beta. tauto.
   - clear E. unfold hdr_write. ss.
     set (n := Z.min (4 - d_tmpInSize (l_s l)) (zlen (l_src l))) in *.
     assert (Hn : 0 <= n <= zlen (l_src l) /\ n <= 4 - d_tmpInSize (l_s l)) by (unfold n; lia).
@@ -420,7 +523,7 @@ Proof.
     destruct (stage_facts _ _ piece n t Ht ltac:(lia) Hpl) as (W1 & W2 & W3). rewrite W1.
     assert (Hbtp : bytes_ok (t ++ piece) = true) by (rewrite bytes_ok_app, Hbt, Hbp; reflexivity).
     assert (HK' : Kc (p ++ piece) (E_B d maxb acc0 data (t ++ piece))).
-    { eapply Kc_shift; [exact HK|]. intros g res (cb & r2 & T & E). exists cb, r2. rewrite app_assoc. auto. }
+    { eapply Kc_shift; [exact HK|]. intros g res. unfold E_B. rewrite <- app_assoc. tauto. }
     destruct (d_tmpInSize (l_s l) + n <? 4) eqn:E.
     + apply Z.ltb_lt in E. apply stepr_stop_stage with (x := piece);
         [lia | ss; unfold piece; rewrite ztake_zdrop_app; reflexivity | reflexivity | exact Hbp |].
@@ -503,7 +606,7 @@ Proof.
       + reflexivity.
       + rewrite HO2 in Bn. apply gbinv_binv in Bn. rewrite HO2. binv_same Bn.
       + rewrite HO2. exact HK.
-    - exists piece. split; [exact S1|]. split; [exact S2|]. unfold FD_BHSize. cbn [Z.eqb].
+    - split; [unfold FD_BHSize; lia|]. exists piece. split; [exact S1|]. split; [exact S2|]. unfold FD_BHSize. cbn [Z.eqb].
       eapply C_f with (d := d) (maxb := maxb) (acc0 := acc0).
       + exact S3.
       + rewrite S5, S4. exact HO'.
@@ -568,41 +671,62 @@ Proof.
             rd32 (zdrop (d_tmpInTarget (set_tmpInTarget (l_s l) (d_tmpInTarget (l_s l) - 4))) sel) =?
             xxh32 0 (ztake (d_tmpInTarget (set_tmpInTarget (l_s l) (d_tmpInTarget (l_s l) - 4))) sel))) = (s0, crcok) ->
      d_tmpInTarget s0 = n /\ binv skip d maxb dict O s0 /\
-     (crcok = true -> forall c rest res, E_after bdec skip d maxb dict O c rest res ->
-                      E_bcrc bdec skip d maxb dict O data c (zdrop n sel ++ rest) res)).
+     (crcok = true -> forall c rest res, E_after bdec skip d maxb dict O c rest res <->
+                      E_bcrc bdec skip d maxb dict O data c (zdrop n sel ++ rest) res) /\
+     (crcok = false -> skip = false -> forall c rest res, ~ E_bcrc bdec skip d maxb dict O data c (zdrop n sel ++ rest) res)).
   { intros s0 crcok H. destruct (f_bcrc d) eqn:EB; cbn [negb] in H; injection H as <- <-.
-    - ss. unfold crc4 in *. rewrite Ht. split; [lia|]. split.
-      + binv_same Bk.
-      + replace (n + 4 - 4) with n by lia. intros C c rest res E. unfold E_bcrc. rewrite EB.
-        set (cb := zdrop n sel) in *.
-        assert (Hcb : zlen cb = 4) by (unfold cb; rewrite zlen_zdrop; lia).
-        destruct (bytes_ok_split n _ Hbs) as [_ Hbc]. fold cb in Hbc.
-        exists cb, rest. split.
-        * replace 4%nat with (length cb) by (unfold zlen in Hcb; lia). apply take_app.
-        * split; [|exact E]. apply Z.eqb_eq in C. rewrite rd32_le_val in C by exact Hbc.
-          rewrite ztake4_self in C by exact Hcb. rewrite C. fold data. rewrite Z.eqb_refl. apply orb_true_r.
-    - unfold crc4 in *. split; [lia|]. split; [exact Bk|]. intros _ c rest res E. unfold E_bcrc. rewrite EB.
-      replace (zdrop n sel) with (@nil byte); [exact E|].
-      unfold zdrop. symmetry. apply skipn_all2. unfold zlen in Hsl. lia. }
+    - ss. unfold crc4 in *. rewrite Ht. split; [lia|]. split; [binv_same Bk|].
+      replace (n + 4 - 4) with n by lia.
+      set (cb := zdrop n sel) in *.
+      assert (Hcb : zlen cb = 4) by (unfold cb; rewrite zlen_zdrop; lia).
+      assert (Hcb' : zlen cb = Z.of_nat 4) by (rewrite Hcb; reflexivity).
+      destruct (bytes_ok_split n _ Hbs) as [_ Hbc]. fold cb in Hbc.
+      assert (Hrd : rd32 cb = le_val cb) by (rewrite rd32_le_val by exact Hbc; rewrite ztake4_self by exact Hcb; reflexivity).
+      rewrite Hrd. fold data. split.
+      + intros C c rest res. unfold E_bcrc. rewrite EB. split.
+        * intro E. exists cb, rest. split.
+          -- replace 4%nat with (length cb) by (unfold zlen in Hcb; lia). apply take_app.
+          -- split; [|exact E]. rewrite C. apply orb_true_r.
+        * intros (cb1 & r2 & T & _ & E). destruct (take_full _ _ _ _ _ Hcb' T) as [_ ->]. exact E.
+      + intros C Hsk c rest res. unfold E_bcrc. rewrite EB. intros (cb1 & r2 & T & K & _).
+        destruct (take_full _ _ _ _ _ Hcb' T) as [-> _]. rewrite Hsk, C in K. discriminate K.
+    - unfold crc4 in *. split; [lia|]. split; [exact Bk|].
+      assert (Z0 : zdrop n sel = []) by (unfold zdrop; apply skipn_all2; unfold zlen in Hsl; lia).
+      rewrite Z0. split; [|discriminate].
+      intros _ c rest res. unfold E_bcrc. rewrite EB. cbn [app]. tauto. }
   match goal with |- context [let '(_, _) := ?x in _] => destruct x as [s0 crcok] eqn:EX end.
-  destruct (CRC s0 crcok eq_refl) as (T0 & B0 & C0). clear CRC EX.
-  destruct (negb crcok) eqn:EN; [exact I|].
-  apply negb_false_iff in EN. specialize (C0 EN).
+  destruct (CRC s0 crcok eq_refl) as (T0 & B0 & C0 & C0f). clear CRC EX.
+  (* what the specification says about this block: the same bytes, the same decoder *)
+  assert (XI : forall g res, X_comp bdec skip d maxb dict O n (sel ++ g) res ->
+               exists c, bdec (spec_hist d dict O) data = Some c /\ E_bcrc bdec skip d maxb dict O data c (zdrop n sel ++ g) res).
+  { intros g res (data' & r1 & c & T1 & D1 & E1). rewrite Tk in T1. inversion T1; subst data' r1. exists c. auto. }
+  destruct (negb crcok) eqn:EN.
+  { cbn [fst snd]. intros _. apply (Kc_bad _ _ _ HK). intros Hsk R res E. cbv beta in E.
+    destruct (XI _ _ E) as (c & _ & E1). apply negb_true_iff in EN. exact (C0f EN Hsk _ _ _ E1). }
+  apply negb_false_iff in EN. specialize (C0 EN). clear C0f.
   assert (HL0 : linked s0 = negb (f_indep d)) by (eapply binv_linked; exact B0).
   rewrite T0, HL0. fold data.
   assert (Hh : (if negb (f_indep d) then lastn (Z.to_nat FD_64KB) (d_hist s0) else d_hist s0) = spec_hist d dict O).
   { destruct B0 as (_ & _ & _ & X & _). unfold spec_hist. fold N64. destruct (f_indep d); cbn [negb]; [exact X|].
     rewrite X, N64_eq. reflexivity. }
   rewrite Hh.
-  destruct (bdec (spec_hist d dict O) data) as [c|] eqn:ED; [|exact I].
+  destruct (bdec (spec_hist d dict O) data) as [c|] eqn:ED.
+  2:{ cbn [fst snd]. intros _. apply (Kc_bad _ _ _ HK). intros _ R res E. cbv beta in E.
+      destruct (XI _ _ E) as (c & D1 & _). discriminate D1. }
   assert (Bd := B0). destruct B0 as (D1 & D2 & D3 & D4 & D5 & D6 & D7). rewrite D2.
-  destruct (zlen c <=? maxb) eqn:EL; [|exact I]. apply Z.leb_le in EL.
+  destruct (zlen c <=? maxb) eqn:EL.
+  2:{ cbn [fst snd]. intros _. apply (Kc_bad _ _ _ HK). intros _ R res E. cbv beta in E.
+      destruct (XI _ _ E) as (c' & D1' & E1). inversion D1'; subst c'. apply C0 in E1. destruct E1 as [E1 _].
+      apply Z.leb_gt in EL. lia. }
+  apply Z.leb_le in EL.
   pose proof (upd_decoded_core s0 c) as C. pose proof (upd_decoded_fields s0 c) as (U1 & U2 & U3).
   set (s1 := upd_decoded s0 c) in *.
   destruct C as (C1 & C2 & C3 & C4 & C5 & C6 & C7 & C8 & C9 & C10 & C11).
   assert (HKc : Kc pn (E_header bdec skip d maxb dict (O ++ c))).
-  { eapply Kc_weaken; [exact HK|]. intros g res E. cbv beta. exists data, (zdrop n sel ++ g), c.
-    split; [apply Tk|]. split; [exact ED|]. apply C0. split; [exact EL|exact E]. }
+  { eapply Kc_weaken; [exact HK|]. intros g res. cbv beta. split.
+    - intro E. exists data, (zdrop n sel ++ g), c.
+      split; [apply Tk|]. split; [exact ED|]. apply C0. split; [exact EL|exact E].
+    - intro E. destruct (XI _ _ E) as (c' & D1' & E1). inversion D1'; subst c'. apply C0 in E1. apply E1. }
   pose proof (zlen_nonneg c) as Hc0.
   rewrite C3, D2.
   destruct (maxb <=? l_cap l) eqn:EC.
@@ -651,7 +775,7 @@ Proof.
   destruct (stage_facts _ _ piece k t Ht ltac:(lia) Hpl) as (W1 & W2 & W3). rewrite W1.
   assert (Hbtp : bytes_ok (t ++ piece) = true) by (rewrite bytes_ok_app, Hbt, Hbp; reflexivity).
   assert (HK' : Kc (p ++ piece) (fun g => X_comp bdec skip d maxb dict O n ((t ++ piece) ++ g))).
-  { eapply Kc_shift; [exact HK|]. intros g res E. cbv beta. rewrite app_assoc. exact E. }
+  { eapply Kc_shift; [exact HK|]. intros g res. cbv beta. rewrite <- app_assoc. tauto. }
   destruct (d_tmpInSize (l_s l) + k <? tg) eqn:E.
   - apply Z.ltb_lt in E. apply stepr_stop_stage with (x := piece).
     + unfold bcsize, FD_BFSize, FD_BHSize.
@@ -687,7 +811,7 @@ Proof.
     destruct (bytes_ok_split tg _ Hb) as [Hb1 _].
     eapply (after_stepr p O l (adv l tg) tg); [lia|exact Hb|reflexivity|reflexivity|].
     apply (u_cblock o d maxb _ O _ _ n); [exact B|exact Hb1|exact Htg|exact Hn|rewrite zlen_ztake; lia|exact Hc|].
-    eapply Kc_shift; [exact HK|]. auto.
+    eapply Kc_shift; [exact HK|]. intros g res. cbv beta. tauto.
 Qed.
 
 (* ---- the end of the frame ---- *)
@@ -705,19 +829,54 @@ Proof.
   assert (q = 0) by nia. subst q. lia.
 Qed.
 
+(* when the rest of the input does lead to acceptance, the size test follows from the specification *)
+Definition Valid (p rem : list byte) : Prop := exists R res, SpecGoal p (rem ++ R) res.
+Lemma Valid_shift p (src : list byte) n : Valid p src -> Valid (p ++ ztake n src) (zdrop n src).
+Proof.
+  intros (R & res & G). exists R, res. unfold SpecGoal in *.
+  rewrite <- app_assoc, (app_assoc (ztake n src)), ztake_zdrop_app. exact G.
+Qed.
+Definition csize_ok (d : fdesc) (O : list byte) : Prop :=
+  match f_csize d with Some n => (n =? 0) || (n =? Z.of_nat (length O)) = true | None => True end.
+Lemma E_suffix_csize d O bs res : E_suffix skip d O bs res -> csize_ok d O.
+Proof.
+  unfold E_suffix, fin_ok, csize_ok. destruct (f_ccrc d).
+  - intros (cb & r1 & _ & _ & H & _). exact H.
+  - intros (H & _). exact H.
+Qed.
+Lemma csize_remaining d maxb O s : binv skip d maxb dict O s -> csize_ok d O -> d_remaining s = 0.
+Proof.
+  intros (B1 & B2 & B3 & B4 & B5 & B6 & B7) H. unfold csize_ok in H. rewrite B6.
+  destruct (f_csize d) as [n|]; [|reflexivity]. destruct (n =? 0) eqn:E0; [reflexivity|]. cbn [orb] in H.
+  apply Z.eqb_eq in H. fold (zlen O) in H. rewrite H, Z.sub_diag. reflexivity.
+Qed.
+Lemma fin_ok_either d maxb pn O s rem (E : list byte -> list byte * list byte -> Prop) :
+  binv skip d maxb dict O s -> d_remaining s = 0 ->
+  zlen O < 18446744073709551616 \/ Valid pn rem ->
+  Kc pn E -> (forall g res, E g res -> csize_ok d O) ->
+  forall rest, fin_ok d O rest (O, rest).
+Proof.
+  intros B ER [Hacc|(R & res & G)] [_ K2] HE rest; [eapply fin_ok_here; eauto|].
+  split; [|reflexivity]. exact (HE _ _ (K2 _ _ G)).
+Qed.
+
 Lemma u_checkSuffix d maxb pn O l crc :
   binv skip d maxb dict O (l_s l) -> f_ccrc d = true -> d_remaining (l_s l) = 0 ->
-  zlen O < 18446744073709551616 -> zlen crc = 4 -> bytes_ok crc = true ->
+  zlen O < 18446744073709551616 \/ Valid pn (l_src l) -> zlen crc = 4 -> bytes_ok crc = true ->
   Kc pn (fun g => E_suffix skip d O (crc ++ g)) ->
   after pn O l (do_checkSuffix l crc).
 Proof.
   intros B EC ER Hacc Hcl Hbc HK. unfold do_checkSuffix, after.
-  pose proof (fin_ok_here d maxb O _ B ER Hacc) as FIN.
+  pose proof (fin_ok_either d maxb pn O _ _ _ B ER Hacc HK ltac:(intros g res; apply E_suffix_csize)) as FIN.
   assert (Hrd : rd32 crc = le_val crc) by (rewrite rd32_le_val by exact Hbc; rewrite ztake4_self by exact Hcl; reflexivity).
+  assert (Hc4 : zlen crc = Z.of_nat 4) by (rewrite Hcl; reflexivity).
   destruct B as (B1 & B2 & B3 & B4 & B5 & B6 & B7). rewrite Hrd, B3.
-  destruct (negb skip && negb (le_val crc =? xxh32 0 (d_xxh (l_s l)))) eqn:EK; cbn [fst snd]; [exact I|].
-  exists []. ss. rewrite !app_nil_r. split; [reflexivity|]. split; [reflexivity|]. left.
-  intro g. apply HK. unfold E_suffix. rewrite EC. exists crc, g. split.
+  destruct (negb skip && negb (le_val crc =? xxh32 0 (d_xxh (l_s l)))) eqn:EK; cbn [fst snd].
+  { intros _. apply (Kc_bad _ _ _ HK). intros Hsk R res E. cbv beta in E. unfold E_suffix in E. rewrite EC in E.
+    destruct E as (cb & r1 & T & C & _). destruct (take_full _ _ _ _ _ Hc4 T) as [-> _].
+    rewrite Hsk in *. cbn [negb andb orb] in *. rewrite (B5 EC eq_refl) in EK. rewrite C in EK. discriminate EK. }
+  split; [lia|]. exists []. ss. rewrite !app_nil_r. split; [reflexivity|]. split; [reflexivity|]. left.
+  intro g. apply (proj1 HK). unfold E_suffix. rewrite EC. exists crc, g. split.
   - replace 4%nat with (length crc) by (unfold zlen in Hcl; lia). apply take_app.
   - split; [|apply FIN].
     destruct skip; [reflexivity|]. cbn [negb andb orb] in *. rewrite (B5 EC eq_refl) in EK.
@@ -726,7 +885,7 @@ Qed.
 
 Lemma c_storeSuffix d maxb p O l t :
   d_stage (l_s l) = StoreSuffix -> binv skip d maxb dict O (l_s l) -> f_ccrc d = true -> d_remaining (l_s l) = 0 ->
-  zlen O < 18446744073709551616 ->
+  zlen O < 18446744073709551616 \/ Valid p (l_src l) ->
   pre (d_tmpIn (l_s l)) (d_tmpInSize (l_s l)) = t -> bytes_ok t = true -> 0 <= d_tmpInSize (l_s l) < 4 ->
   Kc p (fun g => E_suffix skip d O (t ++ g)) -> bytes_ok (l_src l) = true ->
   stepr p O l (do_storeSuffix l).
@@ -741,7 +900,7 @@ Proof.
   destruct (stage_facts _ _ piece n t Ht ltac:(lia) Hpl) as (W1 & W2 & W3). rewrite W1.
   assert (Hbtp : bytes_ok (t ++ piece) = true) by (rewrite bytes_ok_app, Hbt, Hbp; reflexivity).
   assert (HK' : Kc (p ++ piece) (fun g => E_suffix skip d O ((t ++ piece) ++ g))).
-  { eapply Kc_shift; [exact HK|]. intros g res E. cbv beta. rewrite app_assoc. exact E. }
+  { eapply Kc_shift; [exact HK|]. intros g res. cbv beta. rewrite <- app_assoc. tauto. }
   destruct (d_tmpInSize (l_s l) + n <? 4) eqn:E.
   - apply Z.ltb_lt in E. apply stepr_stop_stage with (x := piece);
       [lia | ss; unfold piece; rewrite ztake_zdrop_app; reflexivity | reflexivity | exact Hbp |].
@@ -752,25 +911,29 @@ Proof.
     rewrite (ztake4_self _ H4).
     match goal with |- stepr _ _ _ (do_checkSuffix ?l1 _) =>
       eapply (after_stepr p O l l1 n); [lia|exact Hb|reflexivity|reflexivity|] end.
-    fold piece. apply (u_checkSuffix d maxb); [binv_same B|exact EC|ss; exact ER|exact Hacc|exact H4|exact Hbtp|exact HK'].
+    fold piece. apply (u_checkSuffix d maxb); [binv_same B|exact EC|ss; exact ER| |exact H4|exact Hbtp|exact HK'].
+    destruct Hacc as [Hacc|Hv]; [left; exact Hacc|right; ss; apply Valid_shift; exact Hv].
 Qed.
 
 Lemma c_getSuffix d maxb p O l :
-  d_stage (l_s l) = GetSuffix -> binv skip d maxb dict O (l_s l) -> zlen O < 18446744073709551616 ->
+  d_stage (l_s l) = GetSuffix -> binv skip d maxb dict O (l_s l) ->
+  zlen O < 18446744073709551616 \/ Valid p (l_src l) ->
   Kc p (E_suffix skip d O) -> bytes_ok (l_src l) = true ->
   stepr p O l (do_getSuffix l).
 Proof.
   intros Hst B Hacc HK Hb. unfold do_getSuffix.
   pose proof (zlen_nonneg (l_src l)) as Hl.
   pose proof (binv_flags _ _ _ _ _ _ B) as (F1 & F2 & F3).
-  destruct (negb (d_remaining (l_s l) =? 0)) eqn:ER; [exact I|].
+  destruct (negb (d_remaining (l_s l) =? 0)) eqn:ER.
+  { cbn [fst snd]. intros _. apply (Kc_bad _ _ _ HK). intros _ R res E.
+    pose proof (csize_remaining _ _ _ _ B (E_suffix_csize _ _ _ _ E)) as Z0. rewrite Z0 in ER. discriminate ER. }
   apply negb_false_iff in ER. apply Z.eqb_eq in ER.
-  pose proof (fin_ok_here d maxb O _ B ER Hacc) as FIN.
+  pose proof (fin_ok_either d maxb p O _ _ _ B ER Hacc HK ltac:(intros g res; apply E_suffix_csize)) as FIN.
   rewrite F2.
   destruct (f_ccrc d) eqn:EC; cbn [negb].
-  2:{ unfold stepr. cbn [fst snd Z.eqb]. exists [], []. ss. rewrite !app_nil_r.
+  2:{ unfold stepr. cbn [fst snd Z.eqb]. split; [lia|]. exists [], []. ss. rewrite !app_nil_r.
       split; [reflexivity|]. split; [reflexivity|]. split; [reflexivity|]. left.
-      intro g. apply HK. unfold E_suffix. rewrite EC. apply FIN. }
+      intro g. apply (proj1 HK). unfold E_suffix. rewrite EC. apply FIN. }
   destruct (zlen (l_src l) <? 4) eqn:E4.
   - apply stepr_with_s with (s := set_stage (set_tmpInSize (l_s l) 0) StoreSuffix).
     apply (c_storeSuffix d maxb p O _ []);
@@ -780,8 +943,9 @@ Proof.
     assert (Hcl : zlen crc = 4) by (unfold crc; rewrite zlen_ztake; lia).
     destruct (bytes_ok_split 4 _ Hb) as [Hb1 _]. fold crc in Hb1.
     eapply (after_stepr p O l (adv l 4) 4); [lia|exact Hb|reflexivity|reflexivity|]. fold crc.
-    apply (u_checkSuffix d maxb); [exact B|exact EC|exact ER|exact Hacc|exact Hcl|exact Hb1|].
-    eapply Kc_shift; [exact HK|]. auto.
+    apply (u_checkSuffix d maxb); [exact B|exact EC|exact ER| |exact Hcl|exact Hb1|].
+    + destruct Hacc as [Hacc|Hv]; [left; exact Hacc|right; apply Valid_shift; exact Hv].
+    + eapply Kc_shift; [exact HK|]. intros g res. cbv beta. tauto.
 Qed.
 
 (* ---- the frame header ---- *)
@@ -812,6 +976,75 @@ Proof.
   cbn [negb] in H. inversion H; subst. ss. contradiction.
 Qed.
 
+(* the specification accepts some continuation of the bytes decodeHeader is given: no error *)
+Lemma take_prefix : forall n (a m x y : list byte),
+  take n (a ++ m) = Some (x, y) -> (n <= length a)%nat -> exists y', take n a = Some (x, y') /\ y = y' ++ m.
+Proof.
+  induction n as [|n IH]; intros a m x y H Hn; simpl in H.
+  - inversion H; subst. exists a. auto.
+  - destruct a as [|z a]; [simpl in Hn; lia|]. simpl in H.
+    destruct (take n (a ++ m)) as [[x0 y0]|] eqn:E; [|discriminate]. inversion H; subst.
+    destruct (IH _ _ _ _ E ltac:(simpl in Hn; lia)) as (y' & T & ->). exists y'. simpl. rewrite T. auto.
+Qed.
+
+Lemma header_no_error s b hd more res s' r :
+  bytes_ok hd = true -> FD_minFHSize <= zlen hd -> frame_decode bdec skip dict (hd ++ more) = Some res ->
+  decodeHeader s b hd = (s', r) -> 0 <= r.
+Proof.
+  intros Hb H7 HF ED. unfold FD_minFHSize in H7.
+  destruct hd as [|m0 [|m1 [|m2 [|m3 [|flg [|bd r0]]]]]]; try (unfold zlen in H7; simpl in H7; lia).
+  unfold frame_decode in HF.
+  change (take 4 ((m0 :: m1 :: m2 :: m3 :: flg :: bd :: r0) ++ more)) with (Some ([m0; m1; m2; m3], flg :: bd :: r0 ++ more)) in HF.
+  cbv iota beta in HF.
+  destruct (le_val [m0; m1; m2; m3] =? MAGIC) eqn:EM; [|discriminate HF]. apply Z.eqb_eq in EM.
+  assert (Hm : le_val [m0; m1; m2; m3] = FD_MAGICNUMBER) by (rewrite EM; reflexivity).
+  destruct (parse_desc (flg :: bd :: r0 ++ more)) as [[d r1]|] eqn:PD; [|discriminate HF]. clear HF.
+  assert (Hbr : bytes_ok (flg :: bd :: r0) = true).
+  { unfold bytes_ok in *. simpl in Hb. do 4 (apply andb_prop in Hb; destruct Hb as [_ Hb]). exact Hb. }
+  assert (Hb2 := Hbr). simpl in Hb2. apply andb_prop in Hb2. destruct Hb2 as [Hf Hb2]. apply andb_prop in Hb2. destruct Hb2 as [Hbd Hr].
+  apply byte_range in Hf. apply byte_range in Hbd.
+  rewrite parse_desc_factor in PD.
+  pose proof (flags_equiv flg bd Hf Hbd) as FE.
+  destruct (spec_flags flg bd) as [[[[[[indep bcrc] csz] ccrc] did] bsid]|] eqn:SF; [|discriminate PD].
+  pose proof (spec_flags_range _ _ _ _ _ _ _ _ SF) as (_ & _ & Hcs & _ & Hdi & _).
+  unfold model_flags in FE.
+  destruct (flg_decode flg) as [e|[[[[bm bc] cs] cc] di]] eqn:EF; [discriminate FE|].
+  destruct (bd_decode bd) as [e|id] eqn:EB; [discriminate FE|]. inversion FE; subst bm bc cs cc di id. clear FE.
+  set (n1 := if csz =? 1 then 8%nat else 0%nat) in *. set (n2 := if did =? 1 then 4%nat else 0%nat) in *.
+  assert (Hfh : fh_size csz did = 7 + Z.of_nat n1 + Z.of_nat n2).
+  { unfold fh_size, FD_minFHSize, n1, n2. destruct Hcs as [-> | ->]; destruct Hdi as [-> | ->]; reflexivity. }
+  destruct (take n1 (r0 ++ more)) as [[csb x1]|] eqn:T1; [|discriminate PD].
+  destruct (take n2 x1) as [[dib x2]|] eqn:T2; [|discriminate PD].
+  destruct x2 as [|hc x3]; [discriminate PD|].
+  destruct (hc =? header_checksum (flg :: bd :: csb ++ dib)) eqn:EH; [|discriminate PD].
+  destruct (zlen (m0 :: m1 :: m2 :: m3 :: flg :: bd :: r0) <? fh_size csz did) eqn:ES.
+  - (* not the whole header yet: decodeHeader asks for more *)
+    revert ED. unfold decodeHeader.
+    replace (zlen (m0 :: m1 :: m2 :: m3 :: flg :: bd :: r0) <? FD_minFHSize) with false
+      by (symmetry; apply Z.ltb_ge; unfold FD_minFHSize; exact H7).
+    replace (rd32 (m0 :: m1 :: m2 :: m3 :: flg :: bd :: r0)) with FD_MAGICNUMBER
+      by (change (rd32 (m0 :: m1 :: m2 :: m3 :: flg :: bd :: r0)) with (u32 (le_val [m0; m1; m2; m3])); rewrite Hm; reflexivity).
+    replace (Z.land FD_MAGICNUMBER SKIP_MASK =? FD_MAGIC_SKIPPABLE_START) with false by (vm_compute; reflexivity).
+    replace (negb (FD_MAGICNUMBER =? FD_MAGICNUMBER)) with false by (vm_compute; reflexivity).
+    change (nth_error (m0 :: m1 :: m2 :: m3 :: flg :: bd :: r0) 4) with (Some flg).
+    change (nth_error (m0 :: m1 :: m2 :: m3 :: flg :: bd :: r0) 5) with (Some bd).
+    cbv iota beta. rewrite EF. cbv iota beta. rewrite ES.
+    intro H. inversion H; subst. apply zlen_nonneg.
+  - (* the whole header is there: the specification parses it from these bytes alone *)
+    apply Z.ltb_ge in ES. rewrite Hfh in ES.
+    assert (Hl0 : (n1 + n2 + 1 <= length r0)%nat) by (unfold zlen in ES; simpl length in ES; lia).
+    destruct (take_prefix _ _ _ _ _ T1 ltac:(lia)) as (y1 & T1' & ->).
+    destruct (take_length _ _ _ _ T1') as [_ L1].
+    destruct (take_prefix _ _ _ _ _ T2 ltac:(lia)) as (y2 & T2' & Hx2).
+    destruct (take_length _ _ _ _ T2') as [_ L2].
+    destruct y2 as [|hc' y3]; [exfalso; simpl in L2; lia|]. simpl in Hx2. inversion Hx2; subst hc' x3.
+    assert (Hbr0 : bytes_ok r0 = true) by exact Hr.
+    pose proof (decodeHeader_iff s b m0 m1 m2 m3 (flg :: bd :: r0) Hbr Hm ltac:(unfold FD_minFHSize; exact H7)) as I.
+    rewrite parse_desc_factor, SF in I. fold n1 n2 in I. rewrite T1', T2', EH in I. destruct I as [I _].
+    rewrite ED in I. apply (f_equal snd) in I. cbn [snd] in I. rewrite I.
+    unfold zlen. simpl length in *. lia.
+Qed.
+
 Lemma accept_CInv b s hd s' r :
   bytes_ok hd = true -> FD_minFHSize <= zlen hd -> decodeHeader s b hd = (s', r) -> 0 <= r ->
   d_stage s' = Init -> d_stage s <> Init -> d_remaining s = 0 -> d_hist s = dict -> d_skip s = skip ->
@@ -839,10 +1072,15 @@ Proof.
   - reflexivity.
   - apply binv_after_init; auto.
     destruct (f_csize d) as [n|] eqn:EN; [|exact I]. eapply parse_desc_csize_bound; eauto.
-  - intros g res (F & HF). unfold SpecGoal, frame_decode.
-    change (take 4 ((m0 :: m1 :: m2 :: m3 :: pre0) ++ g)) with (Some ([m0; m1; m2; m3], pre0 ++ g)). cbv iota beta. rewrite Hm.
-    replace (FD_MAGICNUMBER =? MAGIC) with true by (vm_compute; reflexivity). rewrite Hrepl, HB.
-    eapply blocks_mono; [exact HF|lia].
+  - split; intros g res.
+    + intros (F & HF). unfold SpecGoal, frame_decode.
+      change (take 4 ((m0 :: m1 :: m2 :: m3 :: pre0) ++ g)) with (Some ([m0; m1; m2; m3], pre0 ++ g)). cbv iota beta. rewrite Hm.
+      replace (FD_MAGICNUMBER =? MAGIC) with true by (vm_compute; reflexivity). rewrite Hrepl, HB.
+      eapply blocks_mono; [exact HF|lia].
+    + unfold SpecGoal, frame_decode.
+      change (take 4 ((m0 :: m1 :: m2 :: m3 :: pre0) ++ g)) with (Some ([m0; m1; m2; m3], pre0 ++ g)). cbv iota beta. rewrite Hm.
+      replace (FD_MAGICNUMBER =? MAGIC) with true by (vm_compute; reflexivity). rewrite Hrepl, HB.
+      intro HF. exists (S (length g)). exact HF.
 Qed.
 
 Lemma rd32_app (p x : list byte) : 4 <= zlen p -> rd32 (p ++ x) = rd32 p.
@@ -879,11 +1117,15 @@ Proof.
   - apply Z.ltb_ge in E.
     assert (Hfull : zlen (p ++ piece) = tg) by lia.
     rewrite (ztake_all tg (p ++ piece)) by lia.
-    match goal with |- context [decodeHeader ?sb true ?hh] => destruct (decodeHeader sb true hh) as [s' r] eqn:ED end.
-    destruct (r <? 0) eqn:Er; [exact I|]. apply Z.ltb_ge in Er.
     (* the staged header is at least 7 bytes long *)
     assert (H7 : FD_minFHSize <= tg).
     { destruct Hx as [Hx|(_ & X1 & _)]; [fold tg in Hx; lia|lia]. }
+    match goal with |- context [decodeHeader ?sb true ?hh] => destruct (decodeHeader sb true hh) as [s' r] eqn:ED end.
+    destruct (r <? 0) eqn:Er.
+    { cbn [fst snd]. intros _ _ R res G. unfold SpecGoal in G. rewrite Hsrc in G.
+      rewrite <- app_assoc, app_assoc in G.
+      pose proof (header_no_error _ _ _ _ _ _ _ Hbh ltac:(lia) G ED). apply Z.ltb_lt in Er. lia. }
+    apply Z.ltb_ge in Er.
     pose proof (decodeHeader_cases _ _ _ _ _ ED) as (_ & _ & _ & D).
     pose proof (decodeHeader_keeps _ _ _ _ _ ED) as (K1 & K2 & K3). ss.
     unfold stepr. cbn [fst snd]. exists piece, []. ss. rewrite app_nil_r.
@@ -923,7 +1165,10 @@ Proof.
   destruct (FD_maxFHSize <=? zlen (l_src l)) eqn:E19.
   - apply Z.leb_le in E19. unfold FD_maxFHSize in E19.
     destruct (decodeHeader (l_s l) false (l_src l)) as [s' r] eqn:ED.
-    destruct (r <? 0) eqn:Er; [exact I|]. apply Z.ltb_ge in Er.
+    destruct (r <? 0) eqn:Er.
+    { cbn [fst snd]. intros _ _ R res G. unfold SpecGoal in G. cbn [app] in G.
+      pose proof (header_no_error _ _ _ _ _ _ _ Hb ltac:(unfold FD_minFHSize; lia) G ED). apply Z.ltb_lt in Er. lia. }
+    apply Z.ltb_ge in Er.
     pose proof (decodeHeader_cases _ _ _ _ _ ED) as (_ & _ & _ & D).
     assert (Hr : 0 <= r <= zlen (l_src l)).
     { destruct D as [D|[D|[D|[D|D]]]]; [lia|destruct D as (D & _); discriminate D| | |]; unfold FD_minFHSize in *; lia. }
@@ -941,7 +1186,7 @@ Proof.
     + destruct D as (_ & Dst & _).
       eapply accept_CInv; eauto; try congruence. unfold FD_minFHSize; lia.
   - apply Z.leb_gt in E19.
-    destruct (zlen (l_src l) =? 0) eqn:E0; [exact I|].
+    destruct (zlen (l_src l) =? 0) eqn:E0; [cbn [fst snd]; unfold FD_minFHSize; intro Hv; exfalso; lia|].
     match goal with |- stepr _ _ _ (do_storeFrameHeader (with_s _ ?S)) => apply stepr_with_s with (s := S) end.
     apply c_storeFrameHeader; ss; auto; try (unfold FD_minFHSize, FD_header_array_size; lia).
     left. reflexivity.
@@ -1008,17 +1253,18 @@ Proof.
   destruct (bytes_ok_split n _ Hb) as [Hbp _].
   destruct (skp_app p (ztake n (l_src l)) Hp) as [A B].
   destruct (d_tmpInTarget (l_s l) - n =? 0) eqn:E; cbn [negb].
-  - unfold stepr. cbn [fst snd Z.eqb]. exists (ztake n (l_src l)), []. ss.
+  - unfold stepr. cbn [fst snd Z.eqb]. split; [lia|]. exists (ztake n (l_src l)), []. ss.
     split; [rewrite ztake_zdrop_app; reflexivity|]. split; [rewrite app_nil_r; reflexivity|]. split; [exact Hbp|].
     right. auto.
   - apply Z.eqb_neq in E. apply stepr_stop_stage with (x := ztake n (l_src l));
-      [exact E | ss; rewrite ztake_zdrop_app; reflexivity | reflexivity | exact Hbp |].
+      [lia | ss; rewrite ztake_zdrop_app; reflexivity | reflexivity | exact Hbp |].
     apply C_skip; ss; auto. rewrite Hst. reflexivity.
 Qed.
 
 (* ---- one iteration of the stage machine ---- *)
 Lemma iter_chunk o p O l :
-  CInv p O (l_s l) -> wf (l_s l) -> bytes_ok (l_src l) = true -> 0 <= l_cap l -> zlen O < 18446744073709551616 ->
+  CInv p O (l_s l) -> wf (l_s l) -> bytes_ok (l_src l) = true -> 0 <= l_cap l ->
+  zlen O < 18446744073709551616 \/ Valid p (l_src l) ->
   stepr p O l (iter bdec o l).
 Proof.
   intros C (Hoob & Ha & Hi) Hb Hc HO. unfold iter. unfold stage_inv in Hi.
@@ -1049,22 +1295,29 @@ Qed.
 (* ---- one call: the loop ---- *)
 Definition runr (p O : list byte) (l l' : lst) (f : fin) : Prop :=
   match f with
-  | FStop h => exists x y, l_src l = x ++ l_src l' /\ l_out l' = l_out l ++ y /\ bytes_ok x = true /\
+  | FStop h => 0 <= h /\ exists x y, l_src l = x ++ l_src l' /\ l_out l' = l_out l ++ y /\ bytes_ok x = true /\
                            if h =? 0 then Fin (p ++ x) (O ++ y) else CInv (p ++ x) (O ++ y) (l_s l')
-  | _ => True
+  | FRet v => v < 0 -> Bad p (l_src l)
+  | FFuel => True
   end.
+
+Lemma Valid_app p (x rest : list byte) : Valid p (x ++ rest) -> Valid (p ++ x) rest.
+Proof. intros (R & res & G). exists R, res. unfold SpecGoal in *. rewrite <- !app_assoc in *. exact G. Qed.
+Lemma Bad_app p (x rest : list byte) : Bad (p ++ x) rest -> Bad p (x ++ rest).
+Proof. intros H Hsk R res G. apply (H Hsk R res). unfold SpecGoal in *. rewrite <- !app_assoc in *. exact G. Qed.
 
 Lemma run_chunk o : forall fuel l l' f p O,
   CInv p O (l_s l) -> wf (l_s l) -> bytes_ok (l_src l) = true -> 0 <= l_cap l ->
-  run bdec fuel o l = (l', f) -> zlen O + (zlen (l_out l') - zlen (l_out l)) < 18446744073709551616 ->
+  run bdec fuel o l = (l', f) ->
+  zlen O + (zlen (l_out l') - zlen (l_out l)) < 18446744073709551616 \/ Valid p (l_src l) ->
   runr p O l l' f.
 Proof.
   induction fuel as [|fuel IH]; intros l l' f p O C Hwf Hb Hc Hr Hlen.
   - simpl in Hr. inversion Hr; subst. exact I.
   - cbn [run] in Hr.
     pose proof (iter_post bdec o l Hwf Hc) as P.
-    assert (HO : forall l1, acct l l1 -> acct l1 l' -> zlen O < 18446744073709551616).
-    { intros l1 A1 A2. unfold acct in *. lia. }
+    assert (HO : forall l1, acct l l1 -> acct l1 l' -> zlen O < 18446744073709551616 \/ Valid p (l_src l)).
+    { intros l1 A1 A2. destruct Hlen as [Hlen|Hv]; [left|right; exact Hv]. unfold acct in *. lia. }
     pose proof (iter_chunk o p O l C Hwf Hb Hc) as S.
     destruct (iter bdec o l) as [l1 oc] eqn:EI. cbn [fst snd] in P. destruct P as [A P].
     destruct oc as [|h|v].
@@ -1075,19 +1328,24 @@ Proof.
       destruct S as (x1 & y1 & S1 & S2 & S3 & S4).
       assert (Hb1 : bytes_ok (l_src l1) = true).
       { rewrite S1, bytes_ok_app in Hb. apply andb_prop in Hb. apply Hb. }
-      assert (Hlen1 : zlen (O ++ y1) + (zlen (l_out l') - zlen (l_out l1)) < 18446744073709551616).
-      { rewrite S2, !zlen_app. lia. }
+      assert (Hlen1 : zlen (O ++ y1) + (zlen (l_out l') - zlen (l_out l1)) < 18446744073709551616 \/ Valid (p ++ x1) (l_src l1)).
+      { destruct Hlen as [Hlen|Hv]; [left|right].
+        - rewrite S2, !zlen_app. lia.
+        - apply Valid_app. rewrite <- S1. exact Hv. }
       pose proof (IH l1 l' f (p ++ x1) (O ++ y1) S4 W Hb1 Hc1 Hr Hlen1) as R.
-      unfold runr in *. destruct f as [h| |]; auto.
-      destruct R as (x2 & y2 & R1 & R2 & R3 & R4).
-      exists (x1 ++ x2), (y1 ++ y2).
-      split; [rewrite S1, R1; apply app_assoc|]. split; [rewrite R2, S2; symmetry; apply app_assoc|].
-      split; [rewrite bytes_ok_app, S3, R3; reflexivity|].
-      rewrite !app_assoc. exact R4.
+      unfold runr in *. destruct f as [h|v|]; auto.
+      * destruct R as (Hh & x2 & y2 & R1 & R2 & R3 & R4). split; [exact Hh|].
+        exists (x1 ++ x2), (y1 ++ y2).
+        split; [rewrite S1, R1; apply app_assoc|]. split; [rewrite R2, S2; symmetry; apply app_assoc|].
+        split; [rewrite bytes_ok_app, S3, R3; reflexivity|].
+        rewrite !app_assoc. exact R4.
+      * intro Hv. rewrite S1. apply Bad_app. exact (R Hv).
     + inversion Hr; subst l1 f. clear Hr.
       assert (A2 : acct l' l') by (apply acct_refl; unfold acct in A; lia).
       specialize (S (HO l' A A2)). exact S.
-    + inversion Hr; subst. exact I.
+    + inversion Hr; subst l1 f. clear Hr.
+      assert (A2 : acct l' l') by (apply acct_refl; unfold acct in A; lia).
+      specialize (S (HO l' A A2)). exact S.
 Qed.
 
 (* ---- one call of LZ4F_decompress ---- *)
@@ -1127,9 +1385,11 @@ Lemma call_chunk s src cap o p O :
   o_skip o = skip -> wf s -> BInv p O s -> bytes_ok src = true -> 0 <= cap ->
   let s' := fst (decompress bdec s src cap o) in
   let r := snd (decompress bdec s src cap o) in
-  0 <= r_ret r -> zlen O + zlen (r_out r) < 18446744073709551616 ->
-  exists x rest, src = x ++ rest /\ r_consumed r = zlen x /\ wf s' /\
-                 if r_ret r =? 0 then Fin (p ++ x) (O ++ r_out r) else BInv (p ++ x) (O ++ r_out r) s'.
+  zlen O + zlen (r_out r) < 18446744073709551616 \/ Valid p src ->
+  (r_ret r < 0 -> Bad p src) /\
+  (0 <= r_ret r ->
+   exists x rest, src = x ++ rest /\ r_consumed r = zlen x /\ wf s' /\
+                  if r_ret r =? 0 then Fin (p ++ x) (O ++ r_out r) else BInv (p ++ x) (O ++ r_out r) s').
 Proof.
   intros Hsk Hwf HB Hb Hc. unfold decompress. rewrite Hsk.
   pose proof (CInv_enter _ _ _ HB) as C.
@@ -1140,14 +1400,20 @@ Proof.
   pose proof (run_post bdec o _ l0 l' f W1 Hc ER) as (A0 & _ & NF & R0).
   pose proof (zlen_nonneg src) as Hl.
   destruct f as [h|v|]; cbn [fst snd r_ret r_out r_consumed].
-  - intros Hh Hlen.
+  - intros Hlen.
     pose proof (run_chunk o _ l0 l' (FStop h) p O C W1 Hb Hc ER) as R. unfold l0 in R at 1 2. cbn [l_out l_src] in R.
-    specialize (R ltac:(unfold zlen at 3; simpl length; lia)). unfold runr in R. cbn [app] in R.
-    destruct R as (x & y & R1 & R2 & R3 & R4). unfold l0 in R1, R2. cbn [l_src l_out app] in R1, R2.
+    specialize (R ltac:(destruct Hlen as [Hlen|Hv]; [left; unfold zlen at 3; simpl length; lia|right; exact Hv])).
+    unfold runr in R. cbn [app] in R.
+    destruct R as (Hh & x & y & R1 & R2 & R3 & R4). unfold l0 in R1, R2. cbn [l_src l_out app] in R1, R2.
+    split; [intro; lia|]. intros _.
     exists x, (l_src l'). split; [exact R1|]. split.
     + unfold acct, l0 in A0. cbn [l_used l_src] in A0. rewrite R1, zlen_app in A0. lia.
     + split; [apply R0|]. rewrite R2. destruct (h =? 0); [exact R4|left; exact R4].
-  - intros Hv _. destruct R0 as [R0|(Z0 & St & W & Pv)]; [lia|].
+  - intros Hlen.
+    pose proof (run_chunk o _ l0 l' (FRet v) p O C W1 Hb Hc ER) as R. unfold l0 in R at 1 2. cbn [l_out l_src] in R.
+    specialize (R ltac:(destruct Hlen as [Hlen|Hv]; [left; unfold zlen at 3; simpl length; lia|right; exact Hv])).
+    unfold runr in R. split; [exact R|].
+    intros Hv. destruct R0 as [R0|(Z0 & St & W & Pv)]; [lia|].
     (* the only return value >= 0 from inside the loop: no input at the start of a frame *)
     unfold l0 in Z0, St. cbn [l_src l_s] in Z0, St.
     assert (src = []) by (apply zlen0_nil; exact Z0). subst src.
@@ -1160,7 +1426,7 @@ Proof.
     change (FD_minFHSize =? 0) with false. cbv iota. ss. rewrite !app_nil_r. left.
     destruct C; try congruence; try (rewrite St in *; discriminate).
     apply C_start; ss; auto.
-  - intros _ _. exfalso. apply NF; [|reflexivity]. unfold mu, call_fuel, l0; ss. pose proof (rank_range (d_stage s1)). lia.
+  - intros _. exfalso. apply NF; [|reflexivity]. unfold mu, call_fuel, l0; ss. pose proof (rank_range (d_stage s1)). lia.
 Qed.
 End Chunk.
 
@@ -1213,13 +1479,15 @@ Proof.
   { intros x rest0 E. rewrite app_assoc, <- E. symmetry. apply ztake_zdrop_app. }
   destruct (r_ret r =? 0) eqn:E0.
   - inversion H; subst content consumed. clear H.
-    destruct (CC Eneg ltac:(rewrite zlen_app in Hlen; lia)) as (x & rest0 & C1 & C2 & C3 & C4).
+    destruct (CC ltac:(left; rewrite zlen_app in Hlen; lia)) as [_ CC'].
+    destruct (CC' Eneg) as (x & rest0 & C1 & C2 & C3 & C4).
     exists x, (r_out r), (rest0 ++ zdrop n data). split; [apply Hdata; exact C1|]. split; [reflexivity|].
     split; [rewrite C2; reflexivity|exact C4].
   - destruct (drive_extends _ _ _ _ _ _ _ _ _ H) as [y' Hy'].
     assert (Hl1 : zlen O + zlen (r_out r) < 18446744073709551616).
     { rewrite Hy', !zlen_app in Hlen. pose proof (zlen_nonneg y'). lia. }
-    destruct (CC Eneg Hl1) as (x & rest0 & C1 & C2 & C3 & C4).
+    destruct (CC (or_introl Hl1)) as [_ CC'].
+    destruct (CC' Eneg) as (x & rest0 & C1 & C2 & C3 & C4).
     pose proof (Hdata _ _ C1) as Hd.
     assert (Hdrop : zdrop (r_consumed r) data = rest0 ++ zdrop n data).
     { rewrite C2. rewrite Hd at 1. apply zdrop_app_exact. }
@@ -1233,6 +1501,88 @@ Proof.
     exists (x ++ x2), (r_out r ++ y2), rest2.
     split; [rewrite Hd, D1, app_assoc; reflexivity|]. split; [rewrite D2, app_assoc; reflexivity|].
     split; [rewrite D3, C2, zlen_app; lia|]. rewrite !app_assoc. exact D4.
+Qed.
+
+(* on a valid frame (all checksums right) no call fails, whatever the chunking *)
+Lemma drive_valid : forall k s data ns caps acc pos p O res,
+  o_skip o = false ->
+  wf s -> BInv bdec (o_skip o) dict p O s -> bytes_ok data = true -> Forall (fun c => 0 <= c) caps ->
+  frame_decode bdec (o_skip o) dict (p ++ data) = Some res ->
+  match drive bdec o k s data ns caps acc pos with
+  | VError => False
+  | VComplete content consumed =>
+      exists x y rest, data = x ++ rest /\ content = acc ++ y /\ consumed = pos + zlen x /\
+                       Fin bdec (o_skip o) dict (p ++ x) (O ++ y)
+  | VMore => True
+  end.
+Proof.
+  induction k as [|k IH]; intros s data ns caps acc pos p O res Hsk Hwf HB Hb Hcaps HV; [exact I|].
+  destruct ns as [|n ns]; [exact I|]. destruct caps as [|cap caps]; [exact I|].
+  cbn [drive]. inversion Hcaps as [|c0 cs0 Hc Hcaps']; subst.
+  destruct (bytes_ok_split n _ Hb) as [Hb1 Hb2].
+  pose proof (call_chunk bdec (o_skip o) dict s (ztake n data) cap o p O eq_refl Hwf HB Hb1 Hc) as CC.
+  destruct (decompress bdec s (ztake n data) cap o) as [s' r]. cbn [fst snd] in CC.
+  assert (Hval : Valid bdec (o_skip o) dict p (ztake n data)).
+  { exists (zdrop n data), res. unfold SpecGoal. rewrite ztake_zdrop_app. exact HV. }
+  destruct (CC (or_intror Hval)) as [CCn CCp]. clear CC.
+  assert (Hdata : forall x rest0, ztake n data = x ++ rest0 -> data = x ++ rest0 ++ zdrop n data).
+  { intros x rest0 E. rewrite app_assoc, <- E. symmetry. apply ztake_zdrop_app. }
+  destruct (r_ret r <? 0) eqn:Eneg.
+  { apply Z.ltb_lt in Eneg. destruct Hval as (R & res' & G). exact (CCn Eneg Hsk R res' G). }
+  apply Z.ltb_ge in Eneg.
+  destruct (CCp Eneg) as (x & rest0 & C1 & C2 & C3 & C4).
+  pose proof (Hdata _ _ C1) as Hd.
+  destruct (r_ret r =? 0) eqn:E0.
+  - exists x, (r_out r), (rest0 ++ zdrop n data). split; [exact Hd|]. split; [reflexivity|].
+    split; [rewrite C2; reflexivity|exact C4].
+  - assert (Hdrop : zdrop (r_consumed r) data = rest0 ++ zdrop n data).
+    { rewrite C2. rewrite Hd at 1. apply zdrop_app_exact. }
+    rewrite Hdrop.
+    assert (Hb' : bytes_ok (rest0 ++ zdrop n data) = true).
+    { rewrite Hd, bytes_ok_app in Hb. apply andb_prop in Hb. apply Hb. }
+    assert (HV' : frame_decode bdec (o_skip o) dict ((p ++ x) ++ rest0 ++ zdrop n data) = Some res).
+    { rewrite <- app_assoc, <- Hd. exact HV. }
+    pose proof (IH s' _ ns caps (acc ++ r_out r) (pos + r_consumed r) (p ++ x) (O ++ r_out r) res Hsk C3 C4 Hb' Hcaps' HV') as R.
+    destruct (drive bdec o k s' (rest0 ++ zdrop n data) ns caps (acc ++ r_out r) (pos + r_consumed r)) as [content consumed| |]; auto.
+    destruct R as (x2 & y2 & rest2 & D1 & D2 & D3 & D4).
+    exists (x ++ x2), (r_out r ++ y2), rest2.
+    split; [rewrite Hd, D1, app_assoc; reflexivity|]. split; [rewrite D2, app_assoc; reflexivity|].
+    split; [rewrite D3, C2, zlen_app; lia|]. rewrite !app_assoc. exact D4.
+Qed.
+
+(* Completeness under chunking (all checksums verified: skipChecksums off).  From a context at
+   the start of a frame, on an input that the specification accepts, no call fails whatever the
+   pieces and the capacities; and when the calls come to an end (enough pieces were offered),
+   the verdict is the specification's: the specified content, the length of the frame. *)
+Theorem chunked_complete : forall k s data ns caps content rest,
+  o_skip o = false ->
+  wf s -> d_stage s = GetFrameHeader -> d_remaining s = 0 -> d_hist s = dict -> d_skip s = false ->
+  bytes_ok data = true -> Forall (fun c => 0 <= c) caps ->
+  frame_decode bdec false dict data = Some (content, rest) ->
+  drive bdec o k s data ns caps [] 0 <> VError /\
+  (drive bdec o k s data ns caps [] 0 <> VMore ->
+   drive bdec o k s data ns caps [] 0 = VComplete content (zlen data - zlen rest)).
+Proof.
+  intros k s data ns caps content rest Hsk Hwf H1 H2 H3 H4 Hb Hcaps HV.
+  assert (HB : BInv bdec (o_skip o) dict [] [] s) by (right; unfold at_start; auto 10).
+  assert (HV' : frame_decode bdec (o_skip o) dict ([] ++ data) = Some (content, rest)) by (rewrite Hsk; exact HV).
+  pose proof (drive_valid k s data ns caps [] 0 [] [] _ Hsk Hwf HB Hb Hcaps HV') as D.
+  destruct (drive bdec o k s data ns caps [] 0) as [c n| |]; [|contradiction|].
+  2:{ split; [discriminate|]. intro X. contradiction. }
+  split; [discriminate|]. intros _.
+  destruct D as (x & y & rest' & D1 & D2 & D3 & D4). cbn [app] in *. subst c.
+  destruct D4 as [D|(D5 & D6 & D7)].
+  - specialize (D rest'). unfold SpecGoal in D. rewrite <- D1, Hsk, HV in D. inversion D; subst.
+    f_equal. rewrite zlen_app. lia.
+  - exfalso. (* an accepted frame does not begin with a skippable magic number *)
+    unfold frame_decode in HV.
+    destruct (take 4 data) as [[mg r0]|] eqn:T; [|discriminate HV].
+    destruct (le_val mg =? MAGIC) eqn:EM; [|discriminate HV]. apply Z.eqb_eq in EM.
+    destruct (take_length _ _ _ _ T) as [L4 _]. pose proof (take_app_split _ _ _ _ T) as Hd.
+    assert (Hrd : rd32 data = FD_MAGICNUMBER).
+    { unfold rd32. rewrite Hd. unfold ztake. rewrite firstn_app. replace (Z.to_nat 4 - length mg)%nat with 0%nat by lia.
+      rewrite firstn_O, app_nil_r, firstn_all2 by lia. rewrite EM. reflexivity. }
+    rewrite D1 in Hrd. rewrite rd32_app in Hrd by exact D6. rewrite Hrd in D7. exact (magic_not_skippable D7).
 Qed.
 
 (* Soundness under chunking.  From a context at the start of a frame (fresh, after a reset, or
